@@ -8,7 +8,8 @@ Open Scope Z_scope.
 
 (* FULL.  For every backing (memory / HDF5), every chunksize >= 1 and every history of
    write_part / complete / write calls on a fresh indexed-string field that ends with nothing
-   staged (clear allowed only when nothing is staged), the index dataset holds the prefix sums of the
+   staged (clear, and continuing through a new wrapper on the same datasets — e.g. after the dataset was
+   closed and reopened 'r+' — allowed only when nothing is staged), the index dataset holds the prefix sums of the
    entry lengths ([] when no entry was written: see offsets_empty_refuted) and the values dataset the
    concatenated bytes.  No fuel, no size bound, no bound on the chunksize. *)
 Theorem idx_writer_roundtrip : forall (h5:bool) (cs:Z) (ops:list iwop),
@@ -19,8 +20,8 @@ Proof. exact idx_writer_roundtrip_lemma. Qed.
 Print Assumptions idx_writer_roundtrip.
 
 Example idx_writer_roundtrip_ex :
-  hist_ok false [OpPart [[97]; []]; OpPart []; OpPart [[195;169;98]]; OpComplete; OpWrite [[99]]] = true
-  /\ iw_history true 2 [OpPart [[97]; []]; OpPart []; OpPart [[195;169;98]]; OpComplete; OpWrite [[99]]]
+  hist_ok false [OpPart [[97]; []]; OpPart []; OpPart [[195;169;98]]; OpComplete; OpReopen; OpWrite [[99]]] = true
+  /\ iw_history true 2 [OpPart [[97]; []]; OpPart []; OpPart [[195;169;98]]; OpComplete; OpReopen; OpWrite [[99]]]
      = Ok ([0;1;1;4;5], [97;195;169;98;99]).
 Proof. split; vm_compute; reflexivity. Qed.
 
